@@ -12,6 +12,17 @@ import (
 // tuple is a type alias for the ugly common map type.
 type tuple map[string]interface{}
 
+// sortedKeys returns the keys of m in alphabetical order, so that the relations are
+// built in the same order on every run.
+func sortedKeys[V any](m map[string]V) []string {
+	keys := make([]string, 0, len(m))
+	for k := range m {
+		keys = append(keys, k)
+	}
+	sort.Strings(keys)
+	return keys
+}
+
 // Normalize transforms a module into a relational model schema.
 func Normalize(ctx context.Context, m *sysl.Module) (*Schema, error) {
 	var err error
@@ -79,18 +90,18 @@ func normalizeApp(ctx context.Context, s *Schema, app *sysl.Application) error {
 		normalizeMixin(s, app, mixin)
 	}
 
-	for _, ep := range app.Endpoints {
-		if err := normalizeEndpoint(ctx, s, app, ep); err != nil {
+	for _, epName := range sortedKeys(app.Endpoints) {
+		if err := normalizeEndpoint(ctx, s, app, app.Endpoints[epName]); err != nil {
 			return err
 		}
 	}
 
-	for typeName, typ := range app.Types {
-		normalizeType(s, app, typ, typeName)
+	for _, typeName := range sortedKeys(app.Types) {
+		normalizeType(s, app, app.Types[typeName], typeName)
 	}
 
-	for viewName, view := range app.Views {
-		normalizeView(s, app, view, viewName)
+	for _, viewName := range sortedKeys(app.Views) {
+		normalizeView(s, app, app.Views[viewName], viewName)
 	}
 
 	return nil
@@ -355,8 +366,8 @@ func normalizeType(s *Schema, app *sysl.Application, typ *sysl.Type, typeName st
 		s.Enum = append(s.Enum, e)
 	}
 
-	for fieldName, field := range fields {
-		normalizeField(s, app, typeName, field, fieldName)
+	for _, fieldName := range sortedKeys(fields) {
+		normalizeField(s, app, typeName, fields[fieldName], fieldName)
 	}
 
 	normalizeTypeMeta(s, app, typ, typeName)
@@ -409,7 +420,8 @@ func normalizeAppMeta(s *Schema, app *sysl.Application) {
 	}
 
 	annos := annos(app.Attrs)
-	for annoName, annoValue := range annos {
+	for _, annoName := range sortedKeys(annos) {
+		annoValue := annos[annoName]
 		s.Anno.App = append(s.Anno.App, AppAnnotation{
 			AppName:      app.Name.Part,
 			AppAnnoName:  annoName,
@@ -447,7 +459,8 @@ func normalizeMixinMeta(s *Schema, app *sysl.Application, mixin *sysl.Applicatio
 	}
 
 	annos := annos(mixin.Attrs)
-	for annoName, annoValue := range annos {
+	for _, annoName := range sortedKeys(annos) {
+		annoValue := annos[annoName]
 		s.Anno.Mixin = append(s.Anno.Mixin, MixinAnnotation{
 			AppName:        app.Name.Part,
 			MixinName:      mixin.Name.Part,
@@ -488,7 +501,8 @@ func normalizeEndpointMeta(s *Schema, app *sysl.Application, ep *sysl.Endpoint) 
 	}
 
 	annos := annos(ep.Attrs)
-	for annoName, annoValue := range annos {
+	for _, annoName := range sortedKeys(annos) {
+		annoValue := annos[annoName]
 		s.Anno.Ep = append(s.Anno.Ep, EndpointAnnotation{
 			AppName:     app.Name.Part,
 			EpName:      ep.Name,
@@ -529,7 +543,8 @@ func normalizeEventMeta(s *Schema, app *sysl.Application, event *sysl.Endpoint) 
 	}
 
 	annos := annos(event.Attrs)
-	for annoName, annoValue := range annos {
+	for _, annoName := range sortedKeys(annos) {
+		annoValue := annos[annoName]
 		s.Anno.Event = append(s.Anno.Event, EventAnnotation{
 			AppName:        app.Name.Part,
 			EventName:      event.Name,
@@ -577,7 +592,8 @@ func normalizeStatementMeta(
 	}
 
 	annos := annos(stmt.Attrs)
-	for annoName, annoValue := range annos {
+	for _, annoName := range sortedKeys(annos) {
+		annoValue := annos[annoName]
 		s.Anno.Stmt = append(s.Anno.Stmt, StatementAnnotation{
 			AppName:       app.Name.Part,
 			EpName:        ep.Name,
@@ -633,7 +649,8 @@ func normalizeParamMeta(
 	}
 
 	annos := annos(param.Attrs)
-	for annoName, annoValue := range annos {
+	for _, annoName := range sortedKeys(annos) {
+		annoValue := annos[annoName]
 		s.Anno.Param = append(s.Anno.Param, ParamAnnotation{
 			AppName:        app.Name.Part,
 			EpName:         ep.Name,
@@ -683,7 +700,8 @@ func normalizeTypeMeta(s *Schema, app *sysl.Application, typ *sysl.Type, typeNam
 	}
 
 	annos := annos(typ.Attrs)
-	for annoName, annoValue := range annos {
+	for _, annoName := range sortedKeys(annos) {
+		annoValue := annos[annoName]
 		s.Anno.Type = append(s.Anno.Type, TypeAnnotation{
 			AppName:       app.Name.Part,
 			TypeName:      typeName,
@@ -725,7 +743,8 @@ func normalizeFieldMeta(s *Schema, app *sysl.Application, typeName string, field
 	}
 
 	annos := annos(field.Attrs)
-	for annoName, annoValue := range annos {
+	for _, annoName := range sortedKeys(annos) {
+		annoValue := annos[annoName]
 		s.Anno.Field = append(s.Anno.Field, FieldAnnotation{
 			AppName:        app.Name.Part,
 			TypeName:       typeName,
@@ -769,7 +788,8 @@ func normalizeViewMeta(s *Schema, app *sysl.Application, view *sysl.View, viewNa
 	}
 
 	annos := annos(view.Attrs)
-	for annoName, annoValue := range annos {
+	for _, annoName := range sortedKeys(annos) {
+		annoValue := annos[annoName]
 		s.Anno.View = append(s.Anno.View, ViewAnnotation{
 			AppName:       app.Name.Part,
 			ViewName:      viewName,
